@@ -346,7 +346,10 @@ class Exec:
         while True:
             if not first:
                 if cond is not None:
-                    c = sym.const_value(self.ev(cond, tmp))
+                    cv_ = self.ev(cond, tmp)
+                    c = sym.const_value(cv_)
+                    if c is None:
+                        c = self.hooks.decide(self, cv_)      # a rule may fix data-dependent tests (a zero pattern)
                     if c is None:
                         return fail()
                     if not c:
